@@ -50,8 +50,7 @@ def sizing_sync(ctx, corr_s, corr_f, tr, ix):
             if oid not in pb:
                 continue
             p = pb[oid]
-            if tr.cfg["accounts_mod"].get("auto_switch_order_value"):
-                continue
+            auto = bool(tr.cfg["accounts_mod"].get("auto_switch_order_value"))
             ksh = int(s["board"] == "KSH")
             lot = 1 if ksh else int(s["lot"])
             limit = args[2] if len(args) > 2 else None
@@ -64,7 +63,14 @@ def sizing_sync(ctx, corr_s, corr_f, tr, ix):
             if len(created) > 1:
                 impl = "MULTI"
             cv = "%s %s %s" % (f2b(rate), f2b(mult), f2b(minc))
-            if api in ("order_shares", "order"):
+            if auto and api in ("order_shares", "order", "order_lots", "order_to"):
+                # share-based APIs with auto_switch_order_value: an unaffordable BUY becomes "all remaining cash"
+                amt = args[1] * (1 if ksh else lot) if api == "order_lots" else (args[1] - p["qty"] if api == "order_to" else args[1])
+                line = "SZSHARESAUTO %d %d %s %d %d %s %s %s" % (ksh, lot, f2b(amt), p["qty"], p["closable"], f2b(price), f2b(cash), cv)
+                if amt > 0 and created and not created[0]["is_buy"]:
+                    ctx.witness("C15.1", {"kind": "buy_request_creates_sell", "api": api, "auto_switch": True}, "%s%r with auto_switch_order_value and available cash %r created a SELL order for %s shares"
+                                % (api, args, cash, created[0]["qty"]), rp)
+            elif api in ("order_shares", "order"):
                 line = "SZSHARES %d %d %s %d" % (ksh, lot, f2b(args[1]), p["qty"])
             elif api == "order_lots":
                 line = "SZLOTS %d %d %s %d" % (ksh, lot, f2b(args[1]), p["qty"])
@@ -80,7 +86,10 @@ def sizing_sync(ctx, corr_s, corr_f, tr, ix):
                 line = "SZTARGET %d %d %s %s %s %s %d %d %s" % (ksh, lot, f2b(tv * args[1] if args[1] != 0 else 0.0), f2b(p["market_value"]), f2b(price), f2b(cash), p["closable"], p["qty"], cv)
             lines.append(line)
             meta.append((corr_s, c, impl))
-            stock_monitor(ctx, rp, c, created, p, lot, ksh, price, cash, tv, rate, mult, minc)
+            if not (auto and api in ("order_shares", "order", "order_lots", "order_to")):
+                stock_monitor(ctx, rp, c, created, p, lot, ksh, price, cash, tv, rate, mult, minc)
+            else:
+                ctx.stats["auto_switch_calls"] += 1
         elif api in ("buy_open", "sell_open", "buy_close", "sell_close") and args[0] in ix.fut and args[0] in pb:
             oid = args[0]
             is_buy = api.startswith("buy")
@@ -267,14 +276,67 @@ def direct(ctx, corr_r, corr_d):
             corr_d.add(ok, {"a": rec[1], "b": rec[2], "impl": rec[3], "model": rep.strip()})
 
 
+def negative_cash_directed(ctx):
+    """directed: available cash driven below zero by a vwap fill above the reserved price; then a BUY through every stock sizing API,
+    with and without auto_switch_order_value — a request to buy must never create a SELL order"""
+    import bundle as B, runner
+    from rqalpha.environment import Environment
+    rnd = random.Random(ctx.rnd.random())
+    for auto in (False, True):
+        S = B.gen_market(rnd, ndays=4, warm=1, n_stocks=1, with_future=False, opts={"kinds": ["CS"], "p_delist": 0, "p_split": 0, "p_div": 0, "p_sus": 0, "p_limit": 0, "p_thin": 0})
+        st = S["stocks"][0]
+        oid = st["id"]
+        # every day opens above its close: vwap = (open + close) / 2 > close = the price a market order reserves
+        for i, b in list(st["bars"].items()):
+            d14, o, c, hi, lo, v, tt, lu, ld = b
+            o2 = min(lu, round(c * 1.04, 2))
+            st["bars"][i] = (d14, o2, c, max(o2, c), min(o2, c), v, v * round((o2 + c) / 2, 2), lu, ld)
+        log = []
+        state = {"day": 0}
+
+        def handle_bar(context, bar_dict):
+            import rqalpha.api as api
+            from rqalpha.model.order import LimitOrder
+            state["day"] += 1
+            acct = context.portfolio.accounts["STOCK"]
+            if state["day"] == 1:
+                api.order_value(oid, acct.cash)
+            elif state["day"] == 2:
+                for name, fn in (("order_shares", lambda: api.order_shares(oid, 100)), ("order_lots", lambda: api.order_lots(oid, 1)), ("order_value", lambda: api.order_value(oid, 5000)),
+                                 ("order_percent", lambda: api.order_percent(oid, 0.01)), ("order_target_value", lambda: api.order_target_value(oid, acct.market_value + 5000)),
+                                 ("order_to", lambda: api.order_to(oid, api.get_position(oid).quantity + 100))):
+                    cash = acct.cash
+                    try:
+                        o = fn()
+                        if isinstance(o, (list, tuple)):
+                            o = o[0] if o else None
+                        r = None if o is None else (o.side.name, o.quantity)
+                    except Exception as ex:
+                        r = "raised:%s:%s" % (type(ex).__name__, str(ex)[:80])
+                    log.append((name, cash, r))
+        res, exc = runner.run_real(S, dict(accounts={"stock": 2000000.0}, sim={"matching_type": "vwap", "slippage": 0, "volume_limit": False, "price_limit": False},
+                                           accounts_mod={"stock_t1": False, "auto_switch_order_value": auto}, risk={"validate_cash": False}),
+                                   {"init": lambda c: None, "handle_bar": handle_bar})
+        for name, cash, r in log:
+            ctx.evaluations += 1
+            ctx.stats["negative_cash_calls"] += int(cash < 0)
+            ctx.nontrivial("negative_cash", name, auto, cash < 0, str(r)[:12])
+            ctx.notes.append("negative-cash scenario: %s auto_switch=%s cash=%.2f -> %s" % (name, auto, cash, r))
+            if cash < 0 and isinstance(r, tuple) and r[0] == "SELL":
+                ctx.witness("C15.1", {"kind": "buy_request_creates_sell", "api": name, "auto_switch": auto},
+                            "%s (a request to BUY) with available cash %r%s created a SELL order for %s shares" % (name, cash, " and auto_switch_order_value" if auto else "", r[1]),
+                            {"scenario": "negative_cash_directed", "auto_switch": auto, "api": name, "cash": cash})
+
+
 def run(ctx):
+    negative_cash_directed(ctx)
     corr_s = ctx.corr("stock sizing APIs", "created order (side, quantity) of every stock sizing call of real runs vs model `orderShares/orderLots/orderValue/orderTargetValue/stockOrderTo` on the same holding, closable, cash, value, price")
     corr_f = ctx.corr("futures open/close APIs", "created legs of buy/sell open/close(+close_today) vs model `futSubmitLegs`")
     corr_r = ctx.corr("_round_order_quantity", "direct calls of the real function on random quantities (incl. the 10-digit Decimal rounding region) vs model `roundOrderQty`")
     corr_d = ctx.corr("int(Decimal(a)/Decimal(b)) at prec 10", "Python's decimal module vs model `decQuot10`")
     direct(ctx, corr_r, corr_d)
     tstream.stream(ctx, ctx.n(80, 3000), None, [], extra_sync=lambda c, tr, ix: sizing_sync(c, corr_s, corr_f, tr, ix),
-                   market_opts=lambda k: {"opts": {"p_split": 0.8 if k % 2 else 0.3, "p_delist": 0.1}})
+                   market_opts=lambda k: {"opts": {"p_split": 0.8 if k % 2 else 0.3, "p_delist": 0.1}}, cfg_opts=lambda k: {"p_auto_switch": 0.35})
 
 
 def replay(ctx, data):
